@@ -18,6 +18,12 @@ CLAIMED = {
          'For every module with compact() (minus the formats the property excludes) and every path of compact(x), validate(x), validate(compact(x)) over a fully symbolic x: the solver must show that, whenever compact is idempotent on the path, both validations are rejected or both return the same value. Since every input is related to its own compact form, this covers all pairs with equal compact forms. Bounded lengths / K / caps.', '5 C03'),
  'C04': ('symbolic execution of the real validate()/format() chain on a symbolic input + z3 equalities',
          'On every accepting path of validate(x): format(x) must return, validate(format(x)) must return the same canonical number (up to the four documented normalisations) and format(validate(x)) must equal format(x), for the default and the documented format options. Bounded lengths / K / caps.', '5 C04'),
+ 'C07': ('joint symbolic execution of the real validate() and an independent transcription of the standard (spec/ref_validators.py) on the same symbolic input + z3 obligation "same verdict, same canonical string"',
+         'For ISBN, EAN, ISSN, ISMN, ISIN, IBAN (per registered country), IMEI, ISO 11649, ISNI, LEI, GRid, CUSIP, SEDOL, FIGI, IMO, CAS RN, BIC and ISRC: every path of both implementations over a symbolic compact-presentation string (43-character alphabet 0..Z) of each explored length must agree. Bitcoin is not covered (SHA-256). Bounded lengths / caps; checksum-heavy paths use proven-free heuristics only to find witnesses, never to discharge obligations.', '5 C07'),
+ 'C10': ('symbolic registries (symbolic range endpoints) and symbolic queries through the real NumDB.info()/read() against a reference reading of the prefix rules run through the same engine + z3',
+         'Small registry shapes with arbitrary digit endpoints, all 17 shipped registries with symbolic queries (large ones pinned to sampled entries), and generated registry lines with symbolic property values: parts concatenate to the number and split/properties equal the reference semantics; the reader understands the generated lines completely. Bounded shapes / query lengths.', '5 C10'),
+ 'C11': ('ground evaluation of every registry line against an independent grammar + per-entry satisfiability queries on the real lookup and consumers (IBAN structures, ISBN ranges) with z3',
+         'All ~46,000 lines: the real reader\'s structure equals the independent grammar\'s (ground facts, evaluated); per entry a sat query shows a number reaching it (all entries of small registries, seed-rotated samples of large ones in quick); per sampled IBAN country a valid IBAN is synthesised and replayed; per sampled ISBN range every number in the range splits into five non-empty parts. GS1 AIs are exercised by C16.', '5 C11'),
  'C08': ('symbolic execution of the real conversion functions and target validators on a symbolic source number + z3 obligations (target-valid, inverse / embedding)',
          'For each of the ~30 listed conversions: on every accepting path of the source validate(x) for a raw symbolic x, the converted value must validate in the target format and convert back to / embed the source identity; ValidationError refusals are allowed, other exceptions are not. Bounded lengths / K / caps.', '5 C08'),
  'C09': ('joint symbolic execution of each wrapper and its constituent validators on the same symbolic input + z3/boolean obligations for the documented relation',
